@@ -7,24 +7,19 @@ import RedisVerif.Model.RedisX
   `if results.len() > count { (cursor + count, first count) } else { (0, all) }`.
   HSCAN / ZSCAN page over the sorted fields / members with the same arithmetic (`scanPage`).
 
-  The arithmetic is on `usize` / `u64`: `count + 1` traps in an overflow-checked build (the harness'
-  profile) and WRAPS TO 0 in /repo's release profile when `count = usize::MAX` — which is what
-  `COUNT -1` becomes (`extract_integer(..)? as usize` in both parsers; Redis answers a syntax error for
-  COUNT < 1).  `scanPage` returns `none` there; `scanPageWrapped` says what the release build answers.
+  The arithmetic is on `usize` / `u64`.  Since the fix 60ffe53 the page size is `count.saturating_add(1)`
+  and both parsers refuse `COUNT < 1` with a syntax error (before: `COUNT -1` became `usize::MAX`, whose
+  `count + 1` trapped / wrapped).  `Command::Scan { count: Some(0) }` can still be BUILT (not parsed): the
+  COUNT 0 counterexamples of `Props/C01Scan.lean` remain statements about `execute_scan`.
 -/
 namespace RedisVerif.Executor
 open RedisVerif.Redis
 
-/-- one page; `none` = `count + 1` overflows `usize` -/
+/-- one page: `take(count.saturating_add(1))` (after the fix 60ffe53 nothing can trap: always `some`) -/
 def scanPage {α : Type} (keys : List α) (cursor count : Nat) : Option (Nat × List α) :=
-  if count + 1 < two64 then
-    if ((keys.drop cursor).take (count + 1)).length > count then
-      some (cursor + count, ((keys.drop cursor).take (count + 1)).take count)
-    else some (0, (keys.drop cursor).take (count + 1))
-  else none
-
-/-- the release profile: `count + 1` wrapped to 0, `take(0)` -/
-def scanPageWrapped {α : Type} (_keys : List α) (_cursor : Nat) : Nat × List α := (0, [])
+  if ((keys.drop cursor).take (min (count + 1) (two64 - 1))).length > count then
+    some (cursor + count, ((keys.drop cursor).take (min (count + 1) (two64 - 1))).take count)
+  else some (0, (keys.drop cursor).take (min (count + 1) (two64 - 1)))
 
 /-- insertion sort by the bytes of the key (`String`'s `Ord` = bytewise lexicographic) -/
 def insertByBytes (k : Nat) : List Nat → List Nat
